@@ -26,7 +26,15 @@ func corruptDB(path string, ids []string) error {
 		tb := tx.Bucket([]byte("torrents"))
 		for _, id := range ids {
 			if b := tb.Bucket([]byte(id)); b != nil {
-				if err := b.Put([]byte("port"), []byte("not-a-number")); err != nil {
+				// two ways to be unloadable: the port is not a number (Read fails), or the info-hash is not 20 bytes
+				// (newTorrent fails - its only failure, reachable at load only)
+				var err error
+				if len(id)%2 == 1 {
+					err = b.Put([]byte("port"), []byte("not-a-number"))
+				} else {
+					err = b.Put([]byte("info_hash"), []byte{1, 2, 3})
+				}
+				if err != nil {
 					return err
 				}
 			}
